@@ -149,6 +149,8 @@ func (lc *LocalClient) MatchingVersions(ctx context.Context, vk VersionKey) ([]V
 	if !ok {
 		return nil, fmt.Errorf("version: %v: %w", vk, ErrNotFound)
 	}
-	ms := MatchRequirement(vk, vs)
+	// MatchRequirement may reorder its argument; do not let it touch the
+	// client's own list, which other callers may be reading.
+	ms := MatchRequirement(vk, append([]Version(nil), vs...))
 	return ms, nil
 }
